@@ -79,6 +79,10 @@ def build(case):
     if attach == 'trcl-inline3':
         rot = 'translation'
     kind, fam = KINDS[(case.index * 5 + rng.randrange(len(KINDS))) % len(KINDS)]
+    if rot.startswith('flip') and case.index % 3 == 1:
+        # tori under half turns: the axis may end up antiparallel to z
+        kind, fam = rng.choice([('tz', 'circular'), ('ty', 'elliptic'),
+                                ('tx', 'circular'), ('tz', 'elliptic')])
     if attach == 'trcl-pair':
         kind, fam = PAIR_KINDS[(case.index + rng.randrange(len(PAIR_KINDS)))
                                % len(PAIR_KINDS)]
